@@ -54,8 +54,14 @@ NoCall == [none |-> TRUE]
 NoArg  == [rr |-> "genuine", sig |-> "genuine", key |-> "genuine", rttl |-> 0]
 NoRes  == [verdict |-> "none", ttl |-> 0]
 
+\* the cache key covers every member of RRset and RRSIGs, in order (the cached proof says which
+\* RRSIG verified by position); deviation "xorKey": members combined by XOR (order-free and
+\* self-cancelling)
 KeyOf(a) ==
-    IF CacheRule = "asis" /\ a.rr = "rdataNameCase" THEN <<"genuine", a.sig>> ELSE <<a.rr, a.sig>>
+    LET r == IF CacheRule = "asis" /\ a.rr = "rdataNameCase" THEN "genuine"
+             ELSE IF Deviation = "xorKey" /\ a.rr = "addForgedTwice" THEN "genuine" ELSE a.rr
+        s == IF Deviation = "xorKey" /\ a.sig = "swapSigs" THEN "twoSigs" ELSE a.sig
+    IN  <<r, s>>
 
 Init ==
     /\ clk \in ClkStarts /\ mono = 0 /\ cache = <<>>
@@ -72,8 +78,10 @@ Finish(v, t, cached) ==
     /\ last' = [arg |-> arg, clk |-> clk, verdict |-> v, ttl |-> t, cached |-> cached,
                 \* the verdict given to records that arrived with the RRset without being members of
                 \* it: only the members of the RRset the signature covers are marked
-                stray |-> IF ~HasStray(arg.rr) THEN "none"
-                          ELSE IF Deviation = "markGroup" THEN v ELSE "NotSecure"]
+                stray |-> IF ~HasStray(arg) THEN "none"
+                          ELSE IF Deviation = "markGroup" THEN v
+                          ELSE IF Deviation = "xorKey" /\ cached /\ arg.sig = "swapSigs" THEN v
+                          ELSE "NotSecure"]
     /\ estab' = (estab \/ Establishes(arg, clk))
     /\ UNCHANGED ncall
     /\ pc' = "idle" /\ arg' = NoArg /\ res' = NoRes
